@@ -73,6 +73,16 @@ def main(tier):
                          "u": "0", "P": rng.choice([1, 2]), "ps": rng.choice([1, 2, 4]), "relax": rng.choice([1, 2]), "maxsuper": rng.choice([1, 2, 4]),
                          "vstyle": 0, "seed": rng.randrange(10 ** 6), "out": os.path.join(out, "fp%d.ndjson" % k)})
     ck.notes["forced_pivot_order_jobs"] = k
+    # requested row orders at u > 0 on general values: the requested row is a candidate of most columns (dense-ish patterns) and passes the
+    # threshold for only some of them -- the policy must take it exactly where it is eligible and never where it is below u * max
+    for i in range(28 if quick else 300):
+        n = rng.randint(4, 12 if quick else 30)
+        perm = list(range(n))
+        rng.shuffle(perm)
+        jobs.append({"id": "rq%d" % i, "gen": "random", "n": n, "dens": rng.choice([600, 800, 1000]), "fulldiag": 1, "usepr": 1, "permr": ",".join(map(str, perm)),
+                     "u": rng.choice(["0.1", "0.5", "1.0"]), "P": rng.choice([1, 2, 4]), "ps": rng.choice([1, 2, 4]), "relax": rng.choice([1, 2, 3]),
+                     "maxsuper": rng.choice([1, 2, 4, 8]), "vstyle": rng.choice([0, 3]), "order": rng.choice([-1, 1]), "seed": rng.randrange(10 ** 6),
+                     "out": os.path.join(out, "rq%d.ndjson" % i)})
     forced = {}
 
     def judge(j, cfg, res):
